@@ -37,7 +37,7 @@ _FILE_PROPS = {
     "joblib/_utils.py": ["C04", "C09"],
     "joblib/memory.py": ["C02", "C05", "C06", "C11", "C12", "C18", "C14"],
     "joblib/_store_backends.py": ["C02", "C05", "C11", "C18", "C06", "C12"],
-    "joblib/disk.py": ["C11", "C18"],
+    "joblib/disk.py": ["C11", "C18", "C20"],
     "joblib/func_inspect.py": ["C07", "C12", "C02", "C06"],
     "joblib/hashing.py": ["C08", "C02", "C06"],
     "joblib/compressor.py": ["C03", "C13", "C14"],
